@@ -15,7 +15,8 @@ RULE = (
     'case variants, surrounding whitespace, prefixes, ASCII separators/whitespace at every position, every '
     'stdnum.util._char_map key inserted/substituted; plus single edits of valid numbers - common.mutations and every '
     'digit/A/X inserted, substituted or a character deleted at every position - that validate() happens to '
-    'accept; self-similar numbers: a substring of a valid number - as written / lower / upper / swapped case - '
+    'accept; table-driven numbers (every member of a module-level table put in the place of the member found in a '
+    'valid number); the length-/letter-extremal valid numbers of common.extremal_numbers(); self-similar numbers: a substring of a valid number - as written / lower / upper / swapped case - '
     'copied over or inserted at another part of it (field starts of 1-4 characters to every position), kept when '
     'validate() accepts, each also in the case spellings of the whole number and of its first field; '
     'only presentations that validate() accepts are used) x '
@@ -30,8 +31,9 @@ RULE = (
     'options].  ' + G.NONTRIVIAL_RULE)
 
 PARAMS = {
-    'quick': dict(full=0, dense=3, light=40, near=3, mutations=3, selfsim=4, selfsim_limit=250),
-    'thorough': dict(full=8, dense=40, light=400, near=30, mutations=12, selfsim=40, selfsim_limit=2500),
+    'quick': dict(full=0, dense=3, light=40, near=3, mutations=3, selfsim=4, selfsim_limit=250, table=2, table_limit=400),
+    'thorough': dict(full=8, dense=40, light=400, near=30, mutations=12, selfsim=40, selfsim_limit=2500, table=12,
+                     table_limit=6000),
 }
 EXPECT = ('format(x) does not raise; N(validate(format(x))) == N(validate(x)); format(x) == format(validate(x))')
 
@@ -263,6 +265,19 @@ def _worker(task):
                         check('near-valid', v[:i] + ch + v[i + 1:], {})
                 if i < len(v):
                     check('near-valid', v[:i] + v[i + 1:], {})
+    # one input per row of the tables of the module (every member put in the place of the member found in a valid
+    # number), and the length-/letter-extremal valid numbers
+    for idx, v in enumerate(valid):
+        if idx * nparts + part >= P['table']:
+            break
+        for lab, y in G.table_variants(mod, v, rng, P['table_limit']):
+            if check('table', y, {}):
+                for fkw in fopts[1:]:
+                    check('table:option', y, fkw)
+    if part == 0:
+        for y in common.extremal_numbers(modname):
+            for fkw in fopts:
+                check('extremal', y, fkw)
     # self-similar valid numbers (the text of one part recurring in another part), in every case spelling
     for idx, v in enumerate(valid):
         gidx = idx * nparts + part
